@@ -90,24 +90,24 @@ func (a odAPI) TagDelete(ctx context.Context, r ref.Ref) error { return a.o.TagD
 func (a odAPI) Close(ctx context.Context, r ref.Ref) error     { return a.o.Close(ctx, r) }
 
 type envA struct {
-	cs      Case
-	c       *CaseA
-	ev      *evid.Collector
-	tmp     string
-	tgt     string
-	srcDir  string
-	m       *rm.Model
-	rc      *regclient.RegClient
-	api     layoutAPI
-	gc      bool
-	due     bool // the harness knows the layout was modified through this client since the last collection
-	blobs   []string
-	classes map[string]bool
-	cmu     sync.Mutex
-	tainted bool // a copy with referrers / digest-tags failed: goroutines it left behind may still be writing (known finding sigStray)
-	nt      bool
-	everR   map[string]bool // digests that index.json reached at some earlier point of the history
-	trace   []string
+	cs       Case
+	c        *CaseA
+	ev       *evid.Collector
+	tmp      string
+	tgt      string
+	srcDir   string
+	m        *rm.Model
+	rc       *regclient.RegClient
+	api      layoutAPI
+	gc       bool
+	due      bool // the harness knows the layout was modified through this client since the last collection
+	blobs    []string
+	classes  map[string]bool
+	cmu      sync.Mutex
+	tainted  bool // a copy with referrers / digest-tags failed: goroutines it left behind may still be writing (known finding sigStray)
+	nt       bool
+	everR    map[string]bool // digests that index.json reached at some earlier point of the history
+	trace    []string
 	watchdog bool
 }
 
